@@ -141,10 +141,10 @@ func ResolveStateConflictsV2(
 			if _, ok := visited[authEventID]; ok {
 				continue
 			}
+			visited[authEventID] = struct{}{}
 			if event, ok := r.conflictedEventMap[authEventID]; ok {
 				events = append(events, fullControlSet(event)...)
 			}
-			visited[authEventID] = struct{}{}
 		}
 		return events
 	}
@@ -670,9 +670,16 @@ func (r *stateResolverV2) calculateFullAuthChainAndConflictedSubgraph(
 func (r *stateResolverV2) createPowerLevelMainline() []PDU {
 	var mainline []PDU
 
-	// Define our iterator function.
+	// Define our iterator function. Where event IDs are chosen by the sender (room
+	// versions 1 and 2) auth events can refer to each other in a cycle, so don't
+	// visit the same event twice.
+	visited := map[string]struct{}{}
 	var iter func(event PDU)
 	iter = func(event PDU) {
+		if _, ok := visited[event.EventID()]; ok {
+			return
+		}
+		visited[event.EventID()] = struct{}{}
 		// Append this event to the beginning of the mainline.
 		mainline = append(mainline, nil)
 		copy(mainline[1:], mainline)
@@ -718,9 +725,15 @@ func (r *stateResolverV2) getFirstPowerLevelMainlineEvent(event PDU) (
 		return pos, ok
 	}
 
-	// Define our iterator function.
+	// Define our iterator function. As in createPowerLevelMainline, don't visit
+	// the same event twice in case the auth events form a cycle.
+	visited := map[string]struct{}{}
 	var iter func(event PDU)
 	iter = func(event PDU) {
+		if _, ok := visited[event.EventID()]; ok {
+			return
+		}
+		visited[event.EventID()] = struct{}{}
 		// In much the same way as we do in createPowerLevelMainline, we loop
 		// through the event's auth events, checking that it exists in our supplied
 		// auth event map and finding power level events.
